@@ -1,11 +1,11 @@
 SPECIFICATION Spec
 CONSTANTS
-  NAddr = 3
+  NAddr = 2
   NSlot = 1
   Vals <- V02
   Amts <- A01
-  Genesis <- GenJ1
-  HasLock <- NoLock3
+  Genesis <- GenK
+  HasLock <- NoLock2
   Ops <- OpsJ
   MaxMut = 3
   MaxSnap = 2
